@@ -45,8 +45,8 @@ def generate(seed, tier):
             tp["watches"].append("ok_int + %d" % i)
         if pos == "watch" and i == 0:
             tp["watches"].append(off)
-        if r.random() < 0.2:
-            tp["args"] = {"frame_type": r.choice(("all_frame", "single_frame"))}
+        if r.random() < 0.45:
+            tp["args"] = {"frame_type": r.choice(("all_frame", "single_frame", "no_frame"))}
         tps.append(tp)
     return {"prog": {"seed": seed, "name": "simval_%d" % (seed % 5),
                      "opts": {"n": r.randrange(0, 3), "plain": True, "off": off, "pos": pos}},
@@ -127,6 +127,24 @@ def execute(scenario, ch):
             continue
         names = [v.name for v in view.frames[0].variables]
         real = cap["locals"]
+        ft = (tp.get("args") or {}).get("frame_type")
+        # each snapshot follows its OWN tracepoint's frame_type, whatever else fired on this event
+        outer_with_vars = [fi for fi, fr in enumerate(view.frames[1:], start=1)
+                           if fr.variables and fr.file_name.startswith("/simapp/")]
+        outer_host = [fi for fi, fr in enumerate(view.frames[1:], start=1) if fr.file_name.startswith("/simapp/")]
+        if ft == "no_frame":
+            if names or outer_with_vars:
+                viol.append(V("frame-type-not-its-own:no_frame-has-variables", "%s collected variables %s (others on the "
+                              "event: %s)" % (tp["id"], names[:4], [(t_["id"], (t_.get("args") or {}).get("frame_type"))
+                                                                    for t_ in scenario["tps"]])))
+            continue
+        if ft == "all_frame" and outer_host and len(outer_with_vars) < len(outer_host):
+            viol.append(V("frame-type-not-its-own:all_frame-lacks-outer-variables", "%s: host frames %s, with variables %s "
+                          "(others on the event: %s)" % (tp["id"], outer_host, outer_with_vars, [
+                              (t_["id"], (t_.get("args") or {}).get("frame_type")) for t_ in scenario["tps"]])))
+        if ft != "all_frame" and outer_with_vars:
+            viol.append(V("frame-type-not-its-own:single_frame-has-outer-variables", "%s: outer frames %s carry variables" % (
+                tp["id"], outer_with_vars)))
         for need in real:
             if need not in names:
                 which = "offender" if need == "off" else "bystander"
@@ -151,7 +169,8 @@ def execute(scenario, ch):
             viol.append(V("watch-results-mismatch:%s" % tag, "configured %s got %s" % (tp.get("watches"), wexprs)))
     # co-located snapshots: complete on their own, equal up to ids, not aliased
     for seq, cs in by_event.items():
-        got = [c for c in cs if c["view"] is not None and c["view"].frames]
+        got = [c for c in cs if c["view"] is not None and c["view"].frames
+               and (c["tp"].get("args") or {}).get("frame_type") != "no_frame"]
         for a in got:
             for b in got:
                 if a is b:
